@@ -189,7 +189,7 @@ def gen_pycomplex3(repo):
             raise Shape('__init__ assigns %s, the stub declares %s' % (sorted(stores), sorted(a for a, _ in ATTRS3)))
     except Shape as e:
         untranslated[INIT['name']] = str(e)
-        sig = ' '.join('(%s : %s)' % (ident(q), ty(t)) for q, t in [('self_', NAT)] + INIT['params'])
+        sig = ' '.join('(%s : %s)' % (ident(q), ty(t)) for q, t in [('self_', NAT)] + [(('prefix_' if q0 == 'prefix' else q0), t0) for q0, t0 in INIT['params']])
         text = ('/-- `%s` (%s) could NOT be translated: %s -/\n' % (INIT['name'], PATH, str(e).replace('-/', '- /')) +
                 'def py_%s %s : ComplexS3.M Unit := throw (Err.fault "untranslated")\n' % (INIT['name'], sig))
     out.append(text)
